@@ -189,6 +189,15 @@ class SimFS:
                     self.count("fault_write_error_" + plan["kind"])
                     code = errno.ENOSPC if plan["kind"] == "enospc" else errno.EIO
                     raise OSError(code, os.strerror(code), path)
+        hook = t.attrs.get("fs_hook")
+        if hook is not None and not hook.get("fired") and op == hook["op"] and path == hook["path"]:
+            hook["count"] = hook.get("count", 0) + 1
+            if hook["count"] == hook["n"]:
+                # an external actor (the user's editor) touches the file system right before this call
+                hook["fired"] = True
+                sim.ev("FAULT", "external-edit", op, rel, hook["n"])
+                self.count("fault_model_edited_during_run")
+                hook["action"]()
         sim.yield_(0.0, "fs:%s:%s" % (op, rel))
 
     # ---- machine crash -------------------------------------------------------
